@@ -121,7 +121,7 @@ def expand(ops):
 
 
 # ------------------------------------------------------------------------------------------ validity of a final mapping
-# instance kinds: 0 = Instance, n >= 1 = InstanceArray(n), -1 = template Instance that never joins the module (it is
+# instance kinds: 0 = Instance, n >= 1 = InstanceArray(n), -3 = InstanceBundle (only in histories that are not exported), -1 = template Instance that never joins the module (it is
 # consumed by `2 * template`), -2 = the InstanceArray made from the template by the "toarray" operation
 def arr_n(k):
     return 2 if k == -2 else max(k, 0)
@@ -585,6 +585,8 @@ def malformed_jobs(seed, n):
         r = core.rng(seed, "C04", "malformed", k)
         kinds = rand_kinds(r)
         ids = IdGen()
+        if k % 4 == 0:
+            kinds = [0, -3, r.choice([0, 2])]      # an InstanceBundle (h.Pair) among them: books only
         ops, _ = rand_history(r, kinds, r.randint(2, 12), ids, bad_p=0.3)
         if k % 2:
             jobs.append(mk_job(kinds, finish(r, kinds, ops, ids)))
@@ -612,6 +614,7 @@ def measure(jobs, outs, cov):
         if out.get("pkg") is None and job.get("export"):
             cov["export_failed"] += 1
         cov["arrays"] += int(any(k != 0 for k in job["kinds"]))
+        cov["instbundles"] = cov.get("instbundles", 0) + int(-3 in job["kinds"])
 
 
 def touches(op, q):
@@ -764,6 +767,7 @@ def run(run, tier, seed, replay=None):
     run.coverage["ops"] = cov["ops"]
     run.coverage["refused_ops"] = cov["refused"]
     run.coverage["histories_with_array"] = cov["arrays"]
+    run.coverage["histories_with_instance_bundle"] = cov.get("instbundles", 0)
     run.coverage["traces_validated_against_impl"] = sum(len(j) for _, j, _, _ in results)
     if missing:
         run.violation("C04:coverage:pairs", f"coverage target missed: ordered (replaced, replacing) kind pairs never executed: {missing}",
